@@ -16,10 +16,17 @@ import (
 	. "verif/internal/luaref"
 )
 
-var nestKinds = []string{"do", "while", "repeat", "numfor", "genfor", "if", "else"}
+// "gotoloop": a loop written with a label and a backward goto, the level's local declared behind the
+// label (a fresh variable per iteration, like the structured loops); "gotoloopL": the local declared
+// once in front of the label, so that the closures of all iterations share it and statements that
+// come earlier in the text run later in time (what the compiler knows when it emits an exit is not
+// what has happened when the exit runs).
+var nestKinds = []string{"do", "while", "repeat", "numfor", "genfor", "if", "else", "gotoloop", "gotoloopL"}
+
+func nestIsGoto(k string) bool { return k == "gotoloop" || k == "gotoloopL" }
 
 func nestIsLoop(k string) bool {
-	return k == "while" || k == "repeat" || k == "numfor" || k == "genfor"
+	return k == "while" || k == "repeat" || k == "numfor" || k == "genfor" || nestIsGoto(k)
 }
 
 func genNest(thorough bool) Gen {
@@ -55,6 +62,9 @@ func genNest(thorough bool) Gen {
 			case "break", "goto-cont":
 				if inner == 0 {
 					return
+				}
+				if exit == "break" && nestIsGoto(ks[inner-1]) {
+					return // a goto loop is not a loop for break
 				}
 			case "goto-cont-outer":
 				if outer == 0 || outer == inner {
@@ -183,11 +193,15 @@ func nestProgram(ks, cs []string, exit string, exLv int, exPos string, at int, i
 		}
 		k := ks[lv-1]
 		var body []Stat
-		if k == "while" || k == "repeat" {
+		if k == "while" || k == "repeat" || nestIsGoto(k) {
 			body = append(body, Assign1(Name(iv(lv)), Bin("+", Name(iv(lv)), Num(1))))
 		}
 		body = append(body, Assign1(Name("n"), Bin("+", Name("n"), Num(1))))
-		body = append(body, Local1(av(lv), Bin("+", Bin("*", Name("n"), Num(10)), Num(float64(lv)))))
+		if k == "gotoloopL" {
+			body = append(body, Assign1(Name(av(lv)), Bin("+", Bin("*", Name("n"), Num(10)), Num(float64(lv)))))
+		} else {
+			body = append(body, Local1(av(lv), Bin("+", Bin("*", Name("n"), Num(10)), Num(float64(lv)))))
+		}
 		if k == "repeat" {
 			body = append(body, Local1(fmt.Sprintf("done%d", lv), Bin(">=", Name(iv(lv)), Num(2))))
 		}
@@ -230,6 +244,20 @@ func nestProgram(ks, cs []string, exit string, exLv int, exPos string, at int, i
 				return []Stat{Assign1(Name(iv(lv)), Num(0)), Repeat(Name(fmt.Sprintf("done%d", lv)), body...)}
 			}
 			return []Stat{Do(Local1(iv(lv), Num(0)), Repeat(Name(fmt.Sprintf("done%d", lv)), body...))}
+		case "gotoloop", "gotoloopL":
+			var st []Stat
+			if bare {
+				st = append(st, Assign1(Name(iv(lv)), Num(0)))
+			} else {
+				st = append(st, Local1(iv(lv), Num(0)))
+			}
+			if k == "gotoloopL" {
+				st = append(st, Local1(av(lv), Num(float64(lv))))
+			}
+			st = append(st, Label(fmt.Sprintf("top%d", lv)))
+			st = append(st, body...)
+			st = append(st, If(Bin("<", Name(iv(lv)), Num(2)), Goto(fmt.Sprintf("top%d", lv))))
+			return []Stat{Do(st...)}
 		case "numfor":
 			return []Stat{NumFor(iv(lv), Num(1), Num(2), nil, body...)}
 		case "genfor":
